@@ -142,6 +142,16 @@ PLANS = {
         rule='decorators from a family parameterised by prefix/affix strings over {ASCII, 2-byte width-1, 3-byte width-2, empty} (affix and prefix characters from disjoint pools); three shapes: a C07-style block with stand-alone renderings of its items at width - display_width(prefix); a block-grammar document whose letters+affix-characters stream must equal the one derived from the DOM; a TrivialDecorator run whose non-space, non-border output must equal V(d); widths 4..80; non-trivial = Ok with a non-ASCII decorator character in the output; distinct by sha256(runs)',
         assumptions=['decorator strings are observed through the trait methods, never assumed', 'the affix stream is compared on table-free documents'],
     ),
+    'C01': dict(
+        fams=[('c01', dict(quick=3000, thorough=40000), dict(depth=1000)), ('c01', dict(quick=0, thorough=400), dict(depth=30000))],
+        mc=[MC_BLOCK, MC_TABLE],
+        model_ok=False,
+        timeout_ms=dict(quick=60000, thorough=900000),
+        nontrivial=lambda rec: bool(rec.get('runs')) and rec['runs'][0]['res']['k'] in ('ok', 'narrow'),
+        rule='MC: no panic state (Inv_C01: shrink loop stuck, column index out of range, missing border line, stack depth) is reachable in MC_Block / MC_Table; random: grammar documents under 1-8 byte mutations (bit flips, splices, truncation, invalid UTF-8, control characters, hostile numbers), random bytes, nesting depth 100 / 1000 / 30000 of 18 element kinds, hostile colspan / ol start, 50-400 column tables; widths {0,1,2,3,1..200,10^5,usize::MAX-1,usize::MAX}; decorators plain/plain_nd/rich/trivial/ASCII custom x random subsets of all options incl. use_doc_css / add_css / add_agent_css, all routes; each case runs under a watchdog (quick 60 s, thorough 15 min) in a process whose death is attributed to the case in flight; non-trivial = the call returned Ok or TooNarrow; distinct by sha256(runs)',
+        assumptions=['byte-level behaviour of html5ever and of the nom CSS tokenizer is explored, not modelled (DESIGN.md section 10): for those the specification supplies only the Call/Return oracle',
+                     'time bound: 60 s per case in the quick tier, 15 min in the thorough tier'],
+    ),
     'C03': dict(
         fams=[('c03', dict(quick=3000, thorough=60000), {})],
         mc=[MC_WRAP_MARKS, MC_BLOCK, MC_TABLE],
@@ -219,13 +229,16 @@ def run_check(prop, tier, seed, t0, no_mc=False):
         # 3. seeded random families
         for k, (fam, counts, params) in enumerate(plan['fams']):
             fp = os.path.join(wd, 'fam%d.cases' % k)
+            if counts[tier] <= 0:
+                continue
             vlib.gen(fam, counts[tier], seed * 1000 + k, fp, params)
             with open(fp) as f:
                 for l in f:
                     allc.write(l)
             os.remove(fp)
 
-    n = vlib.execute(cases_path, trace_path, timeout_ms=plan.get('timeout_ms', 20000))
+    tmo = plan.get('timeout_ms', 20000)
+    n = vlib.execute(cases_path, trace_path, timeout_ms=tmo[tier] if isinstance(tmo, dict) else tmo)
     log('[exec] %d cases executed (%.1fs)' % (n, time.time() - t0))
     judged, bad, tstates, twall = vlib.judge(trace_path, prop)
     log('[judge] %d judged, %d failing predicate (%.1fs TLC)' % (judged, len(bad), twall))
